@@ -200,7 +200,8 @@ fn note_trace(ctx: &mut Ctx, trace: &[sim::Task], calls: u64, used: usize, sched
 fn exec_real(engine: &str, mode: &str, seed: u64, iters: u32, max_threads: u32, ctx: &mut Ctx) -> Result<(), String> {
     use std::process::Command;
     ctx.sig.str("C14.real").str(engine).str(mode).u64(seed);
-    let dir = "/verif/vreal";
+    let dir = std::env::var("VREAL_DIR").unwrap_or_else(|_| "/verif/vreal".to_string());
+    let dir = dir.as_str();
     let out = if engine == "miri" {
         if std::env::var("VREAL_MIRI").map(|v| v == "off").unwrap_or(false) {
             ctx.counters.inc("real.miri_skipped");
